@@ -104,11 +104,11 @@ Proof. split; reflexivity. Qed.
 Lemma zeqb_ofN a b : (Z.of_N a =? Z.of_N b)%Z = (a =? b).
 Proof. destruct (N.eqb_spec a b) as [->|H]; [apply Z.eqb_refl|]. apply Z.eqb_neq. lia. Qed.
 
-Theorem field_loop_ok : forall encf encl f fr x vr acc, f_skip (fst f) = false ->
+Theorem field_loop_ok : forall encf encl f fr x vr acc ea, f_skip (fst f) = false ->
   fields_enc encf encl (f :: fr) (x :: vr) acc =
   match run_field c02_field_loop
-          (FObs false (f_omit (fst f)) (is_empty (snd f) x) (Z.of_N (get_tag (snd f) x)) (f_list (fst f))
-                (name_too_long (f_name (fst f)))) 0%Z false with
+          (FObs false (f_omit (fst f)) (is_empty (snd f) x) ea (Z.of_N (get_tag (snd f) x)) (f_list (fst f))
+                (name_too_long (f_name (fst f)))) 0%Z false false with
   | FSkip => fields_enc encf encl fr vr acc
   | FErr => TErr
   | FWrite typ ov =>
@@ -116,8 +116,8 @@ Theorem field_loop_ok : forall encf encl f fr x vr acc, f_skip (fst f) = false -
             (fun tr => fields_enc encf encl fr vr ((f_name (fst f), tr) :: acc))
   end.
 Proof.
-  intros encf encl f fr x vr acc Hs. rewrite fields_enc_cons, Hs.
-  unfold c02_field_loop. cbn [run_field fo_nilpath fo_omit fo_empty fo_tag fo_aslist fo_longname].
+  intros encf encl f fr x vr acc ea Hs. rewrite fields_enc_cons, Hs.
+  unfold c02_field_loop. cbn [run_field fo_nilpath fo_omit fo_empty fo_empty_after fo_tag fo_aslist fo_longname].
   destruct (f_omit (fst f) && is_empty (snd f) x); [reflexivity|].
   change nbt_TagEnd with (Z.of_N idEnd). rewrite zeqb_ofN.
   destruct (get_tag (snd f) x =? idEnd); [reflexivity|].
